@@ -7,6 +7,7 @@
 """
 import json
 import os
+import re
 import shutil
 import subprocess
 import sys
@@ -195,7 +196,8 @@ def do_report():
     stats = {}
     for sid, r in zip(ids, res):
         meta = json.load(open(os.path.join(SEEDED, sid, "meta.json")))
-        rnd = "12" if "-r12-" in sid else "11" if "-r11-" in sid else "10" if "-r10-" in sid else "9" if "-r9-" in sid else "8" if "-r8-" in sid else "7" if "-r7-" in sid else "6" if "-r6-" in sid else "5" if "-r5-" in sid else "4" if "-r4-" in sid else "3" if "-r3-" in sid else "2" if "-r2-" in sid else "1"
+        _m = re.search(r"-r(\d+)-", sid)
+        rnd = _m.group(1) if _m else "1"
         fo = meta.get("first_outcome") or meta.get("first_recorded_outcome") or {}
         blind = fo.get("result", "n/a")
         if rnd == "1":
@@ -217,7 +219,7 @@ def do_report():
         f.write("Generated by `tools_seed.py report` (patches applied in memory to /repo's current sources; nothing is written to /repo).\n")
         f.write("`blind` = outcome of the property's check when the change was first seen, before any rule was written or changed in response to it ")
         f.write("(round 1 was produced while the rules were being written and has no blind measurement; round-2 values are the first outcome found in the session log).\n\n")
-        for rnd in sorted(stats):
+        for rnd in sorted(stats, key=int):
             st = stats[rnd]
             f.write(f"- round {rnd}: {st['n']} confirmed changes; blind detected {st['blind'] if rnd != '1' else 'n/a'}; reported today {st['now']}\n")
         f.write(f"- {len(obs)} former seeded changes became behaviour-preserving after a later fix (kept as must-stay-silent variants) or lost the statement they edited (kept for the record): {', '.join(obs)}\n")
